@@ -8,7 +8,7 @@ Import ListNotations.
 From CXV Require Import Gen.Blocks Parse.BlocksSM Parse.BlocksSpec Parse.BlocksThms.
 From CXV Require Gen.PinsC03.
 From CXV Require Import Gen.ParserTables Parse.Balanced Parse.BalancedThms Parse.Specs Parse.ClassEnum Parse.CtorDtor.
-From CXV Require Import Gen.TokTy Parse.Declarator Parse.DeclSpec Parse.DeclThms Parse.BaseClause Parse.EnumList Parse.Specs Parse.Init Parse.Members Parse.MethodTail Parse.DeclStmt Parse.MemberStmt Parse.OpName Parse.FinishClass Parse.ConvOp Parse.OperatorMember Parse.FriendStmt.
+From CXV Require Import Gen.TokTy Parse.Declarator Parse.DeclSpec Parse.DeclThms Parse.BaseClause Parse.EnumList Parse.Specs Parse.Init Parse.Members Parse.MethodTail Parse.DeclStmt Parse.MemberStmt Parse.OpName Parse.FinishClass Parse.ConvOp Parse.OperatorMember Parse.FriendStmt Gen.TopLoop Parse.Bodies.
 Open Scope N_scope.
 
 (* the access delivered with a member equals the backward-scan specification
@@ -276,6 +276,30 @@ Theorem friend_type_decodes_partial : forall pre post b rest,
      (DOk (FrType (apply_kws (pre ++ post) mods0) b, rest)).
 Proof. exact friend_type_roundtrip. Qed.
 
+(* WHOLE CLASS BODIES.  The statement loop dispatches on the first token of a statement through the regenerated table of
+   CxxParser.parse; behind it stand the models above.  For a body written as any sequence of access specifiers, empty
+   statements and member statements (each any statement the statement theorems cover -- abstractly: tokens that start with a
+   token going to _parse_declarations and that the member models decode, whatever follows), closed by '}':
+   every statement is reported once, in order, with the access in force where it is written -- the default until the first
+   access specifier, then the most recent one -- and nothing of a statement reaches the next. *)
+Theorem class_body_members_in_order_with_access_partial : forall n cls dcls (elems : list celem) acc stop rest,
+  Forall (celem_ok n cls dcls) elems -> stop_tok stop ->
+  ev (fun f => class_body (S (length elems)) n f cls dcls acc (concat (map celem_toks elems) ++ stop :: rest))
+     (DOk (with_access acc elems, stop :: rest)).
+Proof. exact class_body_sequence. Qed.
+
+(* ... and the statements of member_statement_decodes_partial are such statements *)
+Theorem member_statements_compose : forall cls dcls pre post b items last e,
+  forallb spec_kw pre = true -> forallb spec_kw post = true -> has T_extern (pre ++ post) = false ->
+  Forall mditem_ok items -> mditem_ok last -> mlast_ok last e ->
+  is_decl_head (hd (nm_tok b) (kw_toks pre)) ->
+  let m := apply_kws (pre ++ post) mods0 in
+  let bt := TBase b (m_const m) (m_volatile m) in
+  celem_ok (S (length items)) cls dcls
+    (CEStmt (kw_toks pre ++ nm_tok b :: kw_toks post ++ mitems_toks items last e)
+            (CMembers m (map (mditem_entry bt) items ++ [mlast_entry bt last e]))).
+Proof. exact member_stmt_is_elem. Qed.
+
 (* the functions the hand-written models above mirror (_parse_class_decl, _parse_class_decl_base_clause, _maybe_parse_class_enum_decl, _parse_decl, _parse_method_end, _discard_ctor_initializer, _parse_field, _parse_bitfield, _parse_declarations, _parse_function, _parse_pqname_name_operator, _parse_operator_conversion and _finish_class_or_enum) are, token for
    token of their syntax trees, the ones the models were written against: the
    translator recomputes the digests from the live code and produces Gen/PinsC03.v
@@ -334,6 +358,8 @@ Print Assumptions conversion_operator_decodes_partial.
 Print Assumptions operator_member_decodes_partial.
 Print Assumptions friend_function_decodes_partial.
 Print Assumptions friend_type_decodes_partial.
+Print Assumptions class_body_members_in_order_with_access_partial.
+Print Assumptions member_statements_compose.
 
 (* `static Foo * f1 : 3 = 1, & m2 ( Bar a ) const noexcept = 0 ;` and `explicit Cls ( ) : a ( 1 ) { }` in class Cls (ids 5 / 6) *)
 Example c03_member_stmt_run :
